@@ -85,6 +85,8 @@ func odRecord(args []string) error {
 	defer func() { config.Settings.Search.UsePromNonQuiet = saved }()
 	nodeNo := 0
 	runs := 0
+	var prevPos *position.Position // the position of the node processed before (for runs on a reused generator)
+	var prevPv Move
 	modes := []struct {
 		name string
 		mode movegen.GenMode
@@ -109,6 +111,10 @@ func odRecord(args []string) error {
 			return nil
 		}
 		res.count("C08.od_nodes", 1)
+		defer func() {
+			prevPos = p
+			prevPv = engineMove(o.Pseudo[0].M, o.Pseudo[0].K)
+		}()
 		legal := map[int]bool{}
 		for _, m := range o.Legal {
 			legal[m] = true
@@ -170,6 +176,15 @@ func odRecord(args []string) error {
 						return nil
 					}
 					mg := movegen.NewMoveGen()
+					// every other run: the generator comes from ANOTHER position, where an iteration with a PV move was
+					// abandoned after its first move (a cut-off on the hash move) - no reset in between: the generator
+					// promises to start afresh when it sees a new position
+					if vi%2 == 1 && prevPos != nil {
+						mg.SetPvMove(prevPv)
+						guard(func() { mg.GetNextMove(prevPos, movegen.GenAll, false) })
+						mg.SetPvMove(MoveNone)
+						res.count("C08.od_runs_on_reused_generator", 1)
+					}
 					killers := ""
 					if vi%3 == 2 && len(o.Pseudo) >= 2 {
 						k1 := o.Pseudo[rot%len(o.Pseudo)]
